@@ -264,6 +264,13 @@ def base_payload(r, rd):
     """(label, payload, is_text): a corpus file (raw bytes), a corpus/synthetic text as str, or
     its encoding in one of the byte forms."""
     x = r.random()
+    if x < 0.04:
+        # the channel delivers something else entirely (a wrong file, line noise): indicator-rich garbage
+        n = rd.choice([0, 1, 2, 3, 8, 40, 300, 2000])
+        if rd.random() < 0.5:
+            return 'noise', ''.join(rd.choice(ALPHABET_TEXT) if rd.random() < 0.6 else chr(rd.choice([rd.randrange(0x20, 0x7f), rd.randrange(0xa0, 0x3000),
+                                    rd.randrange(0x10000, 0x10ffff)])) for _ in range(n)), True
+        return 'noise', bytes(rd.choice(ALPHABET_BYTES) if rd.random() < 0.6 else rd.randrange(256) for _ in range(n)), False
     if x < 0.3:
         fs = corpus.files()
         name, data = fs[rd.randrange(len(fs))]
